@@ -85,7 +85,12 @@ impl<'a> Cel<'a> {
 /// Organizes all Cels into a 2d array.
 pub(crate) struct CelsData<P> {
     // Mapping: frame_id -> layer_id -> Option<RawCel>
-    data: Vec<Vec<Option<RawCel<P>>>>,
+    //
+    // The cels are boxed because this table is sparse: a frame's row has a
+    // slot for every layer up to the highest one that has a cel in that frame.
+    // With inline cels (~100 bytes per slot) a sprite with thousands of layers
+    // and frames needed gigabytes for a file of a few hundred kilobytes.
+    data: Vec<Vec<Option<Box<RawCel<P>>>>>,
     num_frames: u32,
 }
 #[derive(Debug, Clone, Copy)]
@@ -156,7 +161,7 @@ impl<P> CelsData<P> {
                 frame_id, layer_id
             )));
         }
-        layers[layer_id as usize] = Some(cel);
+        layers[layer_id as usize] = Some(Box::new(cel));
 
         Ok(())
     }
@@ -165,7 +170,7 @@ impl<P> CelsData<P> {
         self.data[frame_id as usize]
             .iter()
             .enumerate()
-            .filter_map(|(layer_id, cel)| cel.as_ref().map(|c| (layer_id as u32, c)))
+            .filter_map(|(layer_id, cel)| cel.as_deref().map(|c| (layer_id as u32, c)))
     }
 
     // Frame ID must be valid. If Layer ID is out of bounds always returns an
@@ -176,7 +181,7 @@ impl<P> CelsData<P> {
         if (layer as usize) >= layers.len() {
             None
         } else {
-            layers[layer as usize].as_ref()
+            layers[layer as usize].as_deref()
         }
     }
 
@@ -187,7 +192,7 @@ impl<P> CelsData<P> {
         if (layer as usize) >= layers.len() {
             None
         } else {
-            layers[layer as usize].as_mut()
+            layers[layer as usize].as_deref_mut()
         }
     }
 }
@@ -302,14 +307,14 @@ impl CelsData<RawPixels> {
                         frame: frame as u16,
                         layer: layer as u16,
                     };
-                    Some(cel.validate(
+                    Some(Box::new(cel.validate(
                         cel_id,
                         layers,
                         tilesets,
                         pixel_format,
                         palette.clone(),
                         &validate_ref,
-                    )?)
+                    )?))
                 } else {
                     None
                 };
